@@ -529,6 +529,23 @@ pub fn record_c07(a: &Args) -> usize {
         out.balance();
         record_c07_huge(&mut out, &mut rng, w, h);
     }
+    // pages beyond 4 KiB, 64 KiB and 1 MiB whose header + data end exactly on a 16-byte boundary (no padding at all), and
+    // the sizes next to them
+    for bpc in [1u32, 2, 3, 4, 5, 7, 13, 52] {
+        for floor in [4096u32, 65_536, 1 << 20] {
+            let mut w = floor / bpc + 1;
+            while (4 + w * bpc) % 16 != 0 {
+                w += 1;
+            }
+            if !thorough && (bpc + floor / 4096) % 3 == 2 {
+                continue;
+            }
+            for ww in [w, w + 1] {
+                out.balance();
+                record_c07_huge(&mut out, &mut rng, ww, bpc * 8 - (bpc % 3));
+            }
+        }
+    }
     // sizes beyond 32 bits: dimension-only probes always; a real page of 4 GiB + a few KiB with single pixels on both sides
     // of the 2^32-byte mark
     let wide: Vec<(u32, u32, bool)> = if thorough { vec![(1 << 20, 1 << 15, false), (1_048_577, 32_768, true), (3_000_000, 11_500, true), (70_000, 500_000, false), (4_194_303, 8_191, false)] }
@@ -804,6 +821,33 @@ pub fn record_c19(a: &Args) -> usize {
                     }
                     out.emit(json!({"e": "decode", "bytes": j::bytes(&b), "r": decode_type(&b)}));
                 }
+            }
+            // another id of the same family over this block's body, with bytes 2 and 3 as they are, zeroed or set: only the
+            // (family, id) pair decides
+            for id in 0..=255u8 {
+                if !(thorough || id % 4 == block[1] % 4 || id.abs_diff(block[1]) <= 2) {
+                    continue;
+                }
+                for (b2, b3) in [(block[2], block[3]), (0, 0), (0, block[3]), (0xFF, 0xFF)] {
+                    let mut b = block.to_vec();
+                    b[1] = id;
+                    b[2] = b2;
+                    b[3] = b3;
+                    out.emit(json!({"e": "decode", "bytes": j::bytes(&b), "r": decode_type(&b)}));
+                }
+            }
+            // the block written out as text (the way a bus log shows it): none of these is 16 bytes long
+            for text in [
+                block.iter().map(|x| format!("{:02X}", x)).collect::<Vec<_>>().join(" "),
+                block.iter().map(|x| format!("{:X}", x)).collect::<Vec<_>>().join(" "),
+                block.iter().map(|x| format!("{:02x}", x)).collect::<Vec<_>>().join(""),
+                block.iter().map(|x| format!("0x{:02X}", x)).collect::<Vec<_>>().join(", "),
+                block.iter().map(|x| format!("{:02X}", x)).collect::<Vec<_>>().join(" ") + "\r\n",
+                block.iter().map(|x| format!("{}", x)).collect::<Vec<_>>().join(" "),
+                format!("[{}]", block.iter().map(|x| format!("{}", x)).collect::<Vec<_>>().join(", ")),
+                block.iter().map(|x| format!("{:02X}", x)).collect::<Vec<_>>().join("\t"),
+            ] {
+                out.emit(json!({"e": "decode", "bytes": j::bytes(text.as_bytes()), "r": decode_type(text.as_bytes())}));
             }
             // the same geometry written differently: a Max3000 width split differently over the four panels, a Horizon width
             // factored differently into A1*B1 + A2*B2 -- family and id unchanged, so still the same supported type
